@@ -557,6 +557,9 @@ func gallery(args []string) {
 				why, desc := MatchGo(out, p, v)
 				idn := (si+1)*idStride + xi
 				send := ts.lvl == 0 || (sk.Rep && (ts.lvl == 1 || thorough))
+				if sk.Thin && send && xi%4 != 0 {
+					send = false
+				}
 				if why != "" {
 					lf++
 					// every rejected case that is in the trace set anyway, plus the first confirmCap others per sink,
